@@ -87,6 +87,78 @@ func main() {
 		}
 		bw.Flush()
 		bf.Close()
+	case "determinism":
+		// C18: the same history on a fresh instance, after an unrelated history in the same process, and on
+		// several instances concurrently must give identical observations and identical app hashes.
+		fs := flag.NewFlagSet("determinism", flag.ExitOnError)
+		opsPath := fs.String("ops", "ops.txt", "op file to read")
+		par := fs.Int("parallel", 8, "concurrent instances")
+		fs.Parse(os.Args[2:])
+		bz, err := os.ReadFile(*opsPath)
+		must(err)
+		lines := strings.Split(string(bz), "\n")
+		runOnce := func() []string {
+			s := &Session{}
+			var out []string
+			for _, line := range lines {
+				op := ParseOp(line)
+				if op.Kind == "" {
+					continue
+				}
+				if s.w == nil && op.Kind != "config" && op.Kind != "#" {
+					s.w = NewWorld(mintDenom)
+				}
+				o := safeExec(s, op)
+				out = append(out, o)
+				if op.Kind == "dump" && s.w != nil {
+					out = append(out, fmt.Sprintf("apphash=%x", s.w.Commit()))
+				}
+			}
+			if s.w != nil {
+				out = append(out, fmt.Sprintf("apphash=%x", s.w.Commit()))
+			}
+			return out
+		}
+		ref := runOnce()
+		cmp := func(name string, got []string) bool {
+			if len(got) != len(ref) {
+				fmt.Printf("DIFF %s: %d lines vs %d\n", name, len(got), len(ref))
+				return false
+			}
+			for i := range ref {
+				if got[i] != ref[i] {
+					a, b := ref[i], got[i]
+					if len(a) > 300 {
+						a = a[:300]
+					}
+					if len(b) > 300 {
+						b = b[:300]
+					}
+					fmt.Printf("DIFF %s at observation %d\n  first run : %s\n  this run  : %s\n", name, i, a, b)
+					return false
+				}
+			}
+			return true
+		}
+		ok := cmp("replay-after-earlier-history-in-same-process", runOnce())
+		results := make([][]string, *par)
+		done := make(chan int, *par)
+		for i := 0; i < *par; i++ {
+			go func(i int) { results[i] = runOnce(); done <- i }(i)
+		}
+		for i := 0; i < *par; i++ {
+			<-done
+		}
+		for i := 0; i < *par; i++ {
+			ok = cmp(fmt.Sprintf("concurrent-instance-%d", i), results[i]) && ok
+		}
+		hashes := 0
+		for _, l := range ref {
+			if strings.HasPrefix(l, "apphash=") {
+				hashes++
+			}
+		}
+		fmt.Printf("determinism runs=%d observations=%d apphashes=%d identical=%v\n", *par+2, len(ref), hashes, ok)
 	case "scenarios":
 		var ks []string
 		for k := range scenarios {
